@@ -137,19 +137,62 @@ fn v0() -> Val {
 }
 
 fn mk(name: String, codes: &[&str], present: bool, fire: bool) -> Program {
+    mk_variant(name, codes, present, fire, Size::One, true)
+}
+
+/// As `mk`, with the written values of another size and the handles built with or without auto-sync
+/// (neither may change what a lookup answers).
+fn mk_variant(name: String, codes: &[&str], present: bool, fire: bool, size: Size, auto_sync: bool) -> Program {
     let k = e1::key1();
     let threads: Vec<Vec<POp>> = codes
         .iter()
         .enumerate()
-        .map(|(t, s)| s.chars().enumerate().map(|(i, c)| e1::op_from_code(c, &k, e1::wval(t, i, Size::One))).collect())
+        .map(|(t, s)| s.chars().enumerate().map(|(i, c)| e1::op_from_code(c, &k, e1::wval(t, i, size))).collect())
         .collect();
+    let mut cfg = e1::plain_cfg(1 << 40);
+    cfg.auto_sync = auto_sync;
     Program {
         name,
-        cfg: e1::plain_cfg(1 << 40),
+        cfg,
         pre: if present { vec![e1::planted("k", v0(), false, 1)] } else { vec![] },
         threads: e1::own_handles(threads, fire),
         create_write_dir: true,
     }
+}
+
+/// (value size, label, auto-sync) combinations other than the default (1 B, auto-sync on)
+fn variants() -> Vec<(Size, &'static str, bool)> {
+    vec![(Size::Empty, "empty", true), (Size::Empty, "empty", false), (Size::One, "one", false), (Size::Chunks, "chunks", true), (Size::Chunks, "chunks", false)]
+}
+
+/// Every sequential history of <= 3 operations (one participant: exactly one schedule each, i.e. the register
+/// specification itself) for each variant.
+pub fn seq_programs(tier: Tier) -> Vec<(Program, bool)> {
+    let seq_alpha = ['s', 'p', 'g', 't', 'e', 'S', 'P'];
+    let mut seqs: Vec<String> = vec![];
+    for a in seq_alpha {
+        seqs.push(a.to_string());
+        for b in seq_alpha {
+            seqs.push(format!("{}{}", a, b));
+            for c in seq_alpha {
+                seqs.push(format!("{}{}{}", a, b, c));
+            }
+        }
+    }
+    let mut out = Vec::new();
+    for (size, sname, auto_sync) in variants() {
+        let tag = format!("{}-{}", sname, if auto_sync { "sync" } else { "nosync" });
+        for q in &seqs {
+            if tier == Tier::Quick && q.len() == 3 && size == Size::Chunks {
+                continue;
+            }
+            for present in [false, true] {
+                let name = format!("seq-{}-{}-{}", q, tag, if present { "present" } else { "absent" });
+                out.push((mk_variant(name, &[q], present, false, size, auto_sync), present));
+            }
+        }
+    }
+    out
 }
 
 pub fn programs(tier: Tier) -> Vec<(Program, Mode, bool)> {
@@ -190,6 +233,14 @@ pub fn programs(tier: Tier) -> Vec<(Program, Mode, bool)> {
         let mut p = mk(format!("cold-{}", n), &c, false, false);
         p.create_write_dir = false;
         out.push((p, Mode::Bounded(2), false));
+    }
+    for (size, sname, auto_sync) in variants() {
+        if size != Size::Chunks {
+            let tag = format!("{}-{}", sname, if auto_sync { "sync" } else { "nosync" });
+            for (n, c, present) in [("sg|s", vec!["sg", "s"], false), ("pg|pg", vec!["pg", "pg"], false), ("s|gg", vec!["s", "gg"], true), ("e|sg", vec!["e", "sg"], false), ("S|Pg", vec!["S", "Pg"], false)] {
+                out.push((mk_variant(format!("var-{}-{}", n, tag), &c, present, false, size, auto_sync), Mode::Bounded(2), present));
+            }
+        }
     }
     // maintenance firing below capacity must not disturb anything
     out.push((mk("fire-set|put-get".into(), &["s", "pg"], true, true), Mode::Bounded(2), true));
@@ -234,7 +285,9 @@ pub fn run(tier: Tier, shard: Shard, rep: &mut Report) {
         plus two programs where it always fires): ALL pairs of single operations from {set, put, get, touch, ensure} x key initially \
         absent/present explored without bound (depth-first search with sleep sets over filesystem-call interleavings); curated 2-3 \
         participant x 2-3 operation programs under iterative preemption bounding (all schedules with <= 2 preemptions; thorough: every \
-        2 x <=2-op program and every 3 x 1-op triple at bound 2, curated at bound 3). Each execution's call/return history (stamped in \
+        2 x <=2-op program and every 3 x 1-op triple at bound 2, curated at bound 3); every sequential history of <= 3 operations from \
+        {set, put, get, touch, ensure, set_temp_file, put_temp_file} and five writer/reader programs again with values of 0 B and 3 x 8 KiB and \
+        with handles built with auto_sync(false) (neither may change an answer). Each execution's call/return history (stamped in \
         scheduler steps; ensure decomposed into lookup / put / lookup) is checked by Wing-Gong search against the register-with-put \
         specification. Non-trivial = execution with at least one preemption; outcomes = distinct (results, final contents)."
         .into();
@@ -248,11 +301,29 @@ pub fn run(tier: Tier, shard: Shard, rep: &mut Report) {
     let mut chk = |pi: usize, x: &Execution| check(x, if all[pi].2 { Some(v0()) } else { None });
     e1::explore_all("C04", &progs, shard, rep, &|_| RunOpts::default(), &mut chk, cap);
     let _ = world::fnv(b"");
+    let mut no = 0u64;
+    for (prog, present) in seq_programs(tier) {
+        no += 1;
+        if !shard.mine(no) {
+            continue;
+        }
+        let x = crate::sched::run_schedule(&prog, &[], RunOpts::default());
+        rep.evaluations += 1;
+        rep.traces += 1;
+        rep.states += 1;
+        rep.transitions += x.trace.len() as u64;
+        rep.count("sequential_variant_histories", 1);
+        rep.outcomes.insert(world::fnv(format!("{}|{}", prog.name, crate::sched::outcome_key(&x)).as_bytes()));
+        for (sig, msg) in check(&x, if present { Some(v0()) } else { None }) {
+            rep.violation(format!("history:{}", sig), format!("program {} [sequential]: {}", prog.name, msg), e1::case_json(&prog, &[]));
+        }
+    }
 }
 
 pub fn replay(case: &Value, rep: &mut Report) {
     crate::sched::install_hooks();
-    let all = programs(Tier::Thorough);
+    let mut all = programs(Tier::Thorough);
+    all.extend(seq_programs(Tier::Thorough).into_iter().map(|(p, present)| (p, Mode::Bounded(0), present)));
     let name = case["program"].as_str().unwrap_or("").to_string();
     let present = all.iter().find(|p| p.0.name == name).map(|p| p.2).unwrap_or(false);
     let init = if present { Some(v0()) } else { None };
